@@ -1543,8 +1543,9 @@ class Canon(ast.NodeTransformer):
             # <Class or None> is/== None
         if len(node.ops) == 1 and isinstance(node.ops[0], (ast.Is, ast.IsNot)) and isinstance(node.comparators[0], ast.Constant) and node.comparators[0].value is None:
             l = node.left
-            if isinstance(l, ast.Constant) and l.value is None:
-                return ast.copy_location(ast.Constant(value=isinstance(node.ops[0], ast.Is)), node)
+            if isinstance(l, ast.Constant):
+                # <literal> is None: true only for the literal None
+                return ast.copy_location(ast.Constant(value=(l.value is None) == isinstance(node.ops[0], ast.Is)), node)
             if (isinstance(l, ast.Name) and l.id in CLASS_NAMES) or (isinstance(l, ast.Attribute) and isinstance(l.value, ast.Name) and l.value.id in CLASS_NAMES
                                                                      and l.attr in ("_build", "_write", "build", "write")):
                 return ast.copy_location(ast.Constant(value=isinstance(node.ops[0], ast.IsNot)), node)
@@ -1797,10 +1798,17 @@ class Canon(ast.NodeTransformer):
                         x.ctx = ast.Store()
                 test = ast.Call(func=ast.Name(id="any", ctx=ast.Load()), args=[gen], keywords=[])
                 return ast.copy_location(ast.If(test=test, body=[rs], orelse=[]), node)
-        # for p in zip(A, B): .. f(*p) .. p[0] ..   ==>   for p_0, p_1 in zip(A, B): .. f(p_0, p_1) .. p_0 ..
+        # for v in (A if c else B): body   ==>   if c: for v in A: body   else: for v in B: body      (c evaluated once, first, either way)
+        if isinstance(node.iter, ast.IfExp) and not node.orelse and _pure_expr(node.iter.test) \
+                and not any(isinstance(n, (ast.Break, ast.Continue)) for s_ in node.body for n in ast.walk(s_)):
+            a = ast.copy_location(ast.For(target=copy.deepcopy(node.target), iter=node.iter.body, body=copy.deepcopy(node.body), orelse=[], type_comment=None), node)
+            b = ast.copy_location(ast.For(target=copy.deepcopy(node.target), iter=node.iter.orelse, body=copy.deepcopy(node.body), orelse=[], type_comment=None), node)
+            ra, rb = self.visit_For(a), self.visit_For(b)
+            return ast.copy_location(ast.If(test=node.iter.test, body=ra if isinstance(ra, list) else [ra], orelse=rb if isinstance(rb, list) else [rb]), node)
+        # for p in zip(A, B): .. f(*p) .. p[0] ..   ==>   for p_0, p_1 in zip(A, B): .. f(p_0, p_1) .. p_0 ..     (zip(A): for p_0 in A)
         if isinstance(node.target, ast.Name) and isinstance(node.iter, ast.Call) and isinstance(node.iter.func, ast.Name) and node.iter.func.id in ("zip", "enumerate") \
                 and not node.iter.keywords and not any(isinstance(a, ast.Starred) for a in node.iter.args) \
-                and (len(node.iter.args) >= 2 if node.iter.func.id == "zip" else len(node.iter.args) == 1):
+                and (len(node.iter.args) >= 1 if node.iter.func.id == "zip" else len(node.iter.args) == 1):
             k = len(node.iter.args) if node.iter.func.id == "zip" else 2
             v = node.target.id
             uses = [n for s_ in node.body + node.orelse for n in ast.walk(s_) if isinstance(n, ast.Name) and n.id == v]
@@ -1842,7 +1850,11 @@ class Canon(ast.NodeTransformer):
                     if all(id(st_) in in_calls for st_ in stars):
                         node.body = [Z().visit(s_) for s_ in node.body]
                         node.orelse = [Z().visit(s_) for s_ in node.orelse]
-                        node.target = ast.copy_location(ast.Tuple(elts=[ast.Name(id=nm, ctx=ast.Store()) for nm in names], ctx=ast.Store()), node.target)
+                        if k == 1:
+                            node.target = ast.copy_location(ast.Name(id=names[0], ctx=ast.Store()), node.target)
+                            node.iter = node.iter.args[0]
+                        else:
+                            node.target = ast.copy_location(ast.Tuple(elts=[ast.Name(id=nm, ctx=ast.Store()) for nm in names], ctx=ast.Store()), node.target)
                         ast.fix_missing_locations(node)
         # for v in [E for x in IT if c]: body   ==>   for x in IT: if c: v = E; body        (E free of impure calls)
         itc = node.iter
@@ -1950,6 +1962,13 @@ class AppendLoops(ast.NodeTransformer):
     def _block(self, stmts):
         out = []
         i = 0
+        # if C: A..; return [v]      raise X        ==>   if not C: raise X      A..; return [v]
+        # (guard-clause form: the refusal first; both orders run exactly one of the two arms)
+        if len(stmts) >= 2 and isinstance(stmts[-1], ast.Raise) and isinstance(stmts[-2], ast.If) and not stmts[-2].orelse and stmts[-2].body \
+                and isinstance(stmts[-2].body[-1], ast.Return) and len(stmts[-2].body) > 1:
+            iff = stmts[-2]
+            flipped = ast.copy_location(ast.If(test=ast.UnaryOp(op=ast.Not(), operand=iff.test), body=[stmts[-1]], orelse=[]), iff)
+            stmts = stmts[:-2] + [flipped] + list(iff.body)
         while i < len(stmts):
             st = stmts[i]
             nxt = stmts[i + 1] if i + 1 < len(stmts) else None
